@@ -162,7 +162,7 @@ func c07stateDiff(a, b map[string]fsx.Snap) (string, string) {
 }
 
 func c07cases(env *core.Env) []int {
-	n := env.Pick(40, 900) * len(c07configs)
+	n := env.Pick(250, 4000) * len(c07configs)
 	out := make([]int, n)
 	return out
 }
